@@ -1,5 +1,8 @@
 mod base;
 mod named_typed;
 
+#[cfg(feature = "verif_hooks")]
+mod verif_hooks;
+
 pub use base::Type;
 pub use named_typed::NamedTypedValue;
